@@ -23,3 +23,33 @@ class K:
 
 def bad_format(line: str, base: str) -> str:
     return f'bad "{line}" for %s' % (base,)   # T1b: dynamic format string
+
+
+def parts() -> Optional[list]:
+    return None
+
+
+def bad_var() -> str:
+    names = parts()
+    return '.'.join(names)          # T4 (variable): TypeError when None
+
+
+def good_var() -> str:
+    names = parts()
+    if names is None:
+        return ''
+    return '.'.join(names)
+
+
+def bad_unpack(statements: list) -> object:
+    if len(statements) > 1:
+        raise SyntaxError('too many')
+    stmt, = statements              # T5: the guard does not establish len == 1
+    return stmt
+
+
+def good_unpack(statements: list) -> object:
+    if len(statements) != 1:
+        raise SyntaxError('expected one')
+    stmt, = statements
+    return stmt
